@@ -1143,8 +1143,6 @@ class World(object):
                 y = Fxp(0, like=x)
             elif how == 'like_method':
                 y = Fxp(0, bool(x.signed), x.n_word, x.n_frac).like(x)
-            elif how == 'getitem':
-                y = x[0] if np.asarray(x.val).ndim > 0 else Fxp(0, like=x)
             else:
                 y = fxf.fxp_like(x, 0)
             self.bump('accumulator_copied')
